@@ -10,7 +10,7 @@ valid-or-None are claimed."""
 from vlib.harness.runner import Result, Part, exc_signature
 from vlib.ref import netaddr
 from vlib.sim.core import MS, SimHorizon
-from vlib.checks.netutil import Net, power_loss
+from vlib.checks.netutil import with_id0, Net, power_loss
 from vlib.checks.c07_listen import CyclicLoss
 
 PROPERTY = "C17"
@@ -30,7 +30,7 @@ SHRINK_BUDGET = {"quick": 12, "thorough": 60}  # one case costs seconds
 
 def run_case(case):
     res = Result()
-    net = Net(horizon_ms=3_600_000, spi_budget=40_000_000)
+    net = Net(horizon_ms=3_600_000, spi_budget=40_000_000, id0=case.get("id0", 0))
     lossy = bool(set(case.get("loss", "D")) - {"D"})
     if lossy:
         net.med.fault = CyclicLoss(case["loss"])
@@ -557,7 +557,7 @@ def _small_ids_all_pairs():
         yield {"nodes": nodes, "master_mcu": {"spi": 50, "jit": 0, "seed": 7, "poll": 100}, "script": script, "concurrent": False, "loss": "D", "timeout": 7.5}
 
 
-def parts(tier):
+def _parts(tier):
     if tier == "quick":
         return [Part("relay-child-stagger-sweep", "enum", _pair_sweep(200), exhaustive=True),
                 Part("ids-equal-to-address-values-all-pairs", "enum", _small_ids_all_pairs, exhaustive=True),
@@ -573,3 +573,8 @@ def parts(tier):
             Part("nobody-but-a-level-4-node", "enum", _nobody_but_a_level4_node, exhaustive=True),
             Part("repeated-identical-lookups", "enum", lambda: _repeated_lookup(8), exhaustive=True),
             Part("release-after-send", "enum", _release_after_send, exhaustive=True), Part("generated", "gen", lambda: _strategy(12), n=3000)]
+
+
+def parts(tier):
+    # every case also carries a starting value of the 16-bit frame-id counter (netutil.with_id0)
+    return [with_id0(p) for p in _parts(tier)]
